@@ -128,7 +128,9 @@ class Encoder:
             return {"k": "delete", "targets": [vl.enc(t) for t in n.targets]}
         if isinstance(n, ast.Expr):
             return {"k": "exprstmt", "v": vl.enc(n.value)}
-        if isinstance(n, ast.Try):
+        if isinstance(n, (ast.Try, getattr(ast, "TryStar", ast.Try))):
+            # `try ... except*` too: since /repo 6e8e4cc RootContextBuilder.visit_TryStar delegates to visit_Try; every
+            # other walker of the model treats `try` exactly like a generic compound statement (field order)
             return {"k": "try", "body": [self.top(s) for s in n.body], "handlers": [self.kid(h) for h in n.handlers],
                     "orelse": [self.top(s) for s in n.orelse], "finalbody": [self.top(s) for s in n.finalbody]}
         return {"k": "compound", "kind": type(n).__name__, "kids": [self.kid(c) for c in vl.generic_children(n)]}
